@@ -98,9 +98,8 @@ func (w *c03World) step() {
 	}
 }
 
-func c03New(kind0 vkernel.Kind) *c03World {
-	cfg := vkernel.Config{AllowAgain: true, AllowEOF: true, AllowIOErr: true, AllowEINTR: true, Batch: vf.Bound("batch", 1, 2),
-		MaxWaits: vf.Bound("max-waits", 4, 6)}
+func c03New(kind0 vkernel.Kind, batch, waits int) *c03World {
+	cfg := vkernel.Config{AllowAgain: true, AllowEOF: true, AllowIOErr: true, AllowEINTR: true, Batch: batch, MaxWaits: waits}
 	w := &c03World{world: newWorld(cfg, [2]vkernel.Kind{kind0, vkernel.KStream})}
 	t, err := NewTimer(w.ioc)
 	vf.Assume(err == nil)
@@ -114,7 +113,7 @@ func VerifC03_History() {
 		kind = vkernel.KFile
 		vf.Reach("regular-file")
 	}
-	w := c03New(kind)
+	w := c03New(kind, vf.Bound("batch", 1, 2), vf.Bound("max-waits", 4, 6))
 	if vf.Bool("at-dispatch-limit") {
 		w.ioc.Dispatched = MaxCallbackDispatch
 		vf.Reach("deferred-path")
@@ -136,10 +135,10 @@ func VerifC03_RunPending() {
 	if vf.Bool("regular-file") {
 		kind = vkernel.KFile
 	}
-	w := c03New(kind)
+	w := c03New(kind, vf.Bound("runpending.batch", 1, 1), vf.Bound("runpending.max-waits", 4, 4))
 	w.ioc.Dispatched = MaxCallbackDispatch // every start is deferred
 	vf.Unwind(16)
-	K := vf.Bound("k", 2, 3)
+	K := vf.Bound("runpending.k", 2, 3)
 	for s := 0; s < K; s++ {
 		switch vf.Choice("setup", 4) {
 		case 0:
